@@ -110,6 +110,9 @@ def build_registry(mods):
     reg.models[common.sum_prefix] = _models.q_sum_prefix
     reg.models[common.count_prefix] = _models.q_count_prefix
     reg.models[common.nat_of_str] = _models.q_nat_of_str
+    if hasattr(common, 'flat_offset'):
+        from . import flat as _flat
+        reg.models[common.flat_offset] = _flat.q_flat_offset
     reg.models[common.keys_subset] = _models.q_keys_subset
     reg.models[common.prefix_fold] = _models.m_prefix_fold
     reg.models[common.forall_keys] = _models.q_forall_keys
